@@ -404,12 +404,17 @@ def li_setup(ctx):
         "ActionTypeHint.is_subclass_typehint": lambda c, a, k: a[0] is m_action,
         "super": lambda c, a, k: Rec("super()", methods={"__init__": lambda c2, s2, a2, k2: inited.append((a2, dict(k2)))}),
         "import_module": lambda c, a, k: Rec("module", attrs={"empty_help": "<empty help>"}),
+        # siblings of this module that a rewrite of the cycle check may consult (the shipped code asks instantiation_order only): the links already
+        # declared for the phase, and text helpers evaluated by CPython on the concrete keys of the scenario
+        "get_link_actions": lambda c, a, k: [x for x in links_group.attrs["_group_actions"] if isinstance(x, Rec) and x.attrs.get("apply_on", a[1]) == a[1]],
+        "re.sub": lambda c, a, k: __import__("re").sub(a[0], a[1], a[2]),
     }
     consts = {"ActionLink": ClassRef("ActionLink"), "_ActionConfigLoad": ClassRef("_ActionConfigLoad"), "_ActionSubCommands": ClassRef("_ActionSubCommands"), "ActionConfigFile": ClassRef("ActionConfigFile"), "SUPPRESS": "==SUPPRESS=="}
     fn = [None, Rec("fn", attrs={"__name__": "compute"})][ctx.choose(2, "compute_fn")]
     snap = dict(osa=dict(parser.attrs["_option_string_actions"]), actions=list(parser.attrs["_actions"]), req=set(req), shown=list(grp.attrs["_group_actions"]), links=list(links_group.attrs["_group_actions"]),
                 sub_add_kwargs=dict(m_action.attrs["sub_add_kwargs"]))
     return Setup(env={"self": self, "parser": parser, "source": sources, "target": target, "compute_fn": fn, "apply_on": apply_on}, calls=calls, consts=consts,
+                 inline={"split_key_leaf": "jsonargparse._namespace:split_key_leaf"},
                  data=dict(snap=snap, apply_on=apply_on, src_kind=src_kind, tgt_kind=tgt_kind, required=required, cyc=cyc, has_links_group=has_links_group, sources=sources, target=target, parser=parser, self_=self,
                            t_action=t_action, m_action=m_action, m_help=m_help, other=other, grp=grp, links_group=links_group, inited=inited, fn=fn, src_found=src_found, cls_found=cls_found))
 
